@@ -30,6 +30,49 @@ MUTATORS = {"append", "extend", "pop", "setdefault", "update", "clear", "remove"
             "popitem", "__setitem__", "__delitem__", "add", "discard"}
 
 
+def free_vars(t, limit=3):
+    out = set()
+    seen = set()
+    stack = [t]
+    while stack and len(out) < limit:
+        x = stack.pop()
+        if x.get_id() in seen:
+            continue
+        seen.add(x.get_id())
+        if z3.is_const(x):
+            if x.decl().kind() == z3.Z3_OP_UNINTERPRETED:
+                out.add(x.decl().name())
+        elif z3.is_app(x):
+            if x.decl().kind() == z3.Z3_OP_UNINTERPRETED:
+                out.add("<uf>")
+                out.add("<uf2>")
+            stack.extend(x.children())
+        else:
+            out.add("<quant>")
+            out.add("<quant2>")
+    return out
+
+
+def exact_div(x, k):
+    """x / k when x is syntactically a linear sum whose coefficients are all divisible by k, else None"""
+    if z3.is_int_value(x):
+        return z3.IntVal(x.as_long() // k) if x.as_long() % k == 0 else None
+    if z3.is_add(x):
+        parts = [exact_div(a, k) for a in x.children()]
+        return None if any(p is None for p in parts) else z3.Sum(parts)
+    if z3.is_mul(x):
+        ch = x.children()
+        for i, c in enumerate(ch):
+            if z3.is_int_value(c) and c.as_long() % k == 0:
+                rest = ch[:i] + ch[i + 1:]
+                q = c.as_long() // k
+                prod = rest[0]
+                for r in rest[1:]:
+                    prod = prod * r
+                return prod if q == 1 else q * prod
+    return None
+
+
 class Frame:
     def __init__(self, fn, env, defcls, closure=(), globs=None, qual=""):
         self.fn, self.env, self.defcls, self.closure = fn, env, defcls, closure
@@ -53,6 +96,9 @@ class Interp:
         self.feas_timeout = feas_timeout
         self.nqueries = 0
         self.unknown_feasibility = 0
+        self.digit_defs = set()
+        self.entails_cache = {}
+        self.domains = {}           # char variable name -> sorted list of admissible code points (for canon)
         self.no_branch = 0
         self.fresh_n = 0
         self.reset_path([])
@@ -67,6 +113,9 @@ class Interp:
         self.local_ids = set()
         self.path_obligations = []
         self.keep = []              # keeps objects alive so that ids stay unique during a path
+        self.cur_model = None
+        self.cur_model_key = None
+        self.defs = []              # definitional constraints of fresh variables (digits of a term ...)
         self.fresh_n = 0
 
     def fresh(self, prefix, sort="int"):
@@ -77,26 +126,50 @@ class Interp:
     def solver(self, extra=()):
         s = z3.Solver()
         s.set("timeout", self.feas_timeout)
-        s.add(*self.assumptions, *self.pc, *extra)
+        s.add(*self.assumptions, *self.pc, *self.defs, *extra)
         return s
 
     def entails(self, t):
         """does assumptions + pc imply t ? (unknown -> False)"""
-        self.nqueries += 1
-        return self.solver([z3.Not(t)]).check() == z3.unsat
+        key = (tuple(x.get_id() for x in self.pc), len(self.assumptions), t.get_id())
+        hit = self.entails_cache.get(key)
+        if hit is not None:
+            return hit[0]
+        known = self.model_says(t)
+        if known is False:
+            r = False           # the cached model of assumptions + pc falsifies t
+        else:
+            self.nqueries += 1
+            r = self.solver([z3.Not(t)]).check() == z3.unsat
+        self.entails_cache[key] = (r, t, list(self.pc))      # keeps the terms alive: ids stay unique
+        return r
 
     def feasible(self, t):
-        """is assumptions + pc + t satisfiable?  unknown counts as feasible (explores more, never less)"""
+        """is assumptions + pc + t satisfiable?  unknown counts as feasible (explores more, never less).
+        returns (feasible, model or None)"""
         self.nqueries += 1
-        r = self.solver([t]).check()
+        sol = self.solver([t])
+        r = sol.check()
         if r == z3.unknown:
-            s = z3.Solver()
-            s.set("timeout", 4 * self.feas_timeout)
-            s.add(*self.assumptions, *self.pc, t)
-            r = s.check()
+            sol = z3.Solver()
+            sol.set("timeout", 4 * self.feas_timeout)
+            sol.add(*self.assumptions, *self.pc, *self.defs, t)
+            r = sol.check()
             if r == z3.unknown:
                 self.unknown_feasibility += 1
-        return r != z3.unsat
+        return r != z3.unsat, (sol.model() if r == z3.sat else None)
+
+    def model_says(self, t):
+        """truth value of t under the cached model of assumptions + pc, or None"""
+        m = self.cur_model
+        if m is None or self.cur_model_key != (len(self.assumptions), len(self.pc)):
+            return None
+        v = m.eval(t, model_completion=True)
+        if z3.is_true(v):
+            return True
+        if z3.is_false(v):
+            return False
+        return None
 
     def merge_point(self):
         """replay-stable decision whether a pure conditional is merged (ite) or forked.
@@ -125,12 +198,23 @@ class Interp:
         else:
             if self.no_branch:
                 raise MergeAbort()
-            can_t = self.feasible(t)
-            can_f = self.feasible(z3.Not(t))
+            known = self.model_says(t)
+            mt = mf = self.cur_model if known is not None else None
+            if known is True:
+                can_t = True
+                can_f, mf = self.feasible(z3.Not(t))
+            elif known is False:
+                can_f = True
+                can_t, mt = self.feasible(t)
+            else:
+                can_t, mt = self.feasible(t)
+                can_f, mf = self.feasible(z3.Not(t))
             if not can_t and not can_f:
                 raise Infeasible()
             d = can_t
             self.decisions.append((d, can_t and can_f))
+            self.cur_model = mt if d else mf
+            self.cur_model_key = (len(self.assumptions), len(self.pc) + 1)
         self.pos += 1
         self.pc.append(t if d else z3.Not(t))
         return d
@@ -165,7 +249,7 @@ class Interp:
                 n += 1
                 if n > max_paths:
                     raise Unsupported(f"more than {max_paths} paths")
-                yield dict(pc=list(self.pc), kind=out[0], value=out[1], writes=list(self.writes),
+                yield dict(pc=list(self.pc) + list(self.defs), kind=out[0], value=out[1], writes=list(self.writes),
                            obligations=list(self.path_obligations), heap=dict(self.heap), keep=list(self.keep))
             except Infeasible:
                 pass
@@ -178,7 +262,7 @@ class Interp:
 
     def oblige(self, name, clause):
         """safety / precondition obligation under the current path condition"""
-        self.path_obligations.append((name, list(self.pc), clause))
+        self.path_obligations.append((name, list(self.pc) + list(self.defs), clause))
 
     def alloc(self, obj):
         self.local_ids.add(id(obj))
@@ -533,7 +617,7 @@ class Interp:
         (piece,) = s.pieces
         if not self.branch(SBool(piece.v < 10 ** w)):
             return s
-        return SStr([48 + (piece.v / 10 ** (w - 1 - k)) % 10 for k in range(w)])
+        return SStr(self.digits_of(piece.v, w))
 
     def str_of_int(self, v):
         v = concretize(v)
@@ -549,6 +633,29 @@ class Interp:
                 bound = 10 ** k
                 break
         return SDecStr([Dec(v.t, bound)])
+
+    def digits_of(self, v, n):
+        """n decimal digit terms of v (0 <= v < 10**n under the path condition): fresh variables d_k with
+        0 <= d_k <= 9 and v == sum d_k 10^k - linear, no div/mod for the solver"""
+        vs = simp(v)
+        if z3.is_int_value(vs):
+            return [z3.IntVal(ord(ch)) for ch in str(vs.as_long()).rjust(n, "0")]
+        fv = free_vars(vs)
+        if len(fv) == 1 and next(iter(fv)) in self.domains:
+            # a unary term over a small-domain variable: its digits are tables of that variable (see canon)
+            return [48 + (vs / 10 ** (n - 1 - k)) % 10 for k in range(n)]
+        # content-addressed names: the same term always gets the same digit variables, so the (guarded)
+        # definitions are globally consistent facts and can live among the assumptions
+        key = hashlib.sha1(vs.sexpr().encode()).hexdigest()[:12]
+        ds = [z3.Int(f"dg!{key}!{n}!{k}") for k in range(n)]
+        if (key, n) not in self.digit_defs:
+            self.digit_defs.add((key, n))
+            total = z3.IntVal(0)
+            for d in ds:
+                total = total * 10 + d
+            self.assumptions.append(z3.Implies(z3.And(vs >= 0, vs < 10 ** n),
+                                               z3.And(total == vs, *[z3.And(d >= 0, d <= 9) for d in ds])))
+        return [48 + d for d in ds]
 
     def concat(self, parts):
         """concatenate str / SStr / SDecStr parts"""
@@ -581,7 +688,7 @@ class Interp:
                 n += 1
                 if n > 40:
                     raise Unsupported("str(int) wider than 40 digits")
-            out += [48 + (p.v / 10 ** (n - 1 - k)) % 10 for k in range(n)]
+            out += self.digits_of(p.v, n)
         return SStr(out)
 
     def e_Attribute(self, e, f):
@@ -815,10 +922,17 @@ class Interp:
                     raise Raised(KeyError("<sym>"))
                 return default
             as_str = isinstance(d[cands[0]], str)
-            vals = [ord(d[k]) if as_str else d[k] for k in cands]
-            t = z3.IntVal(vals[-1])
-            for k, val in list(zip(cands, vals))[-2::-1]:
-                t = z3.If(c == ord(k), val, t)
+            # consecutive keys whose values differ from the key by a constant offset form one run: one ite per run
+            items = sorted((ord(k), ord(d[k]) if as_str else d[k]) for k in cands)
+            runs = []
+            for ko, val in items:
+                if runs and runs[-1][1] == ko - 1 and runs[-1][2] == ko - val:
+                    runs[-1][1] = ko
+                else:
+                    runs.append([ko, ko, ko - val])
+            t = c - runs[-1][2]
+            for lo, hi, off in runs[-2::-1]:
+                t = z3.If(z3.And(c >= lo, c <= hi), c - off, t)
             return SStr([t]) if as_str else SInt(t)
         for k in cands:
             eq = self.str_eq(key, k)
@@ -987,6 +1101,10 @@ class Interp:
                 elif ys.as_long() < 0:
                     raise Unsupported("mod/div by negative constant")
                 # for y > 0, z3's mod/div (Euclidean) coincide with Python's floor mod/div
+                if isinstance(op, ast.FloorDiv) and z3.is_int_value(ys):
+                    e = exact_div(simp(x), ys.as_long())
+                    if e is not None:
+                        return SInt(e)
                 return SInt(x % y) if isinstance(op, ast.Mod) else SInt(x / y)
             raise Unsupported(f"binop {type(op).__name__} on symbolic ints")
         table = {ast.Add: operator.add, ast.Sub: operator.sub, ast.Mult: operator.mul, ast.Mod: operator.mod,
